@@ -19,6 +19,30 @@ impl Driver for C09 {
         }
     }
     fn run_case(&mut self, ctx: &mut Ctx, idx: u64) {
+        // declared lengths 12..=15: the declared header ends inside the fixed
+        // 16-byte part; nothing behind the declared length may be read (the
+        // length word itself ends at 12). Not under Miri: load() forms a
+        // reference to the 16-byte basic header before it looks at the length,
+        // which is no read (DESIGN section 5).
+        if !cfg!(miri) && mix(idx ^ 0x909) % 64 == 0 {
+            let len = 12 + ctx.rng.below(4) as u32;
+            let arch = *ctx.rng.pick(&gen::ARCHS);
+            let mut mem = vec![0u8; 16];
+            put32(&mut mem, 0, HDR_MAGIC);
+            put32(&mut mem, 4, arch);
+            put32(&mut mem, 8, len);
+            put32(&mut mem, 12, checksum(HDR_MAGIC, arch, len));
+            let reg = Region::new(ctx.placement, &mem[..len as usize]);
+            ctx.eval();
+            ctx.case_desc = Some(J::obj(vec![("sub", J::s("length-inside-fixed-header")), ("length", J::u(len as u64)), ("header", J::hex(&mem[..len as usize]))]));
+            match catch(|| unsafe { Multiboot2Header::load(reg.ptr().cast::<Multiboot2BasicHeader>()) }.map(|h| h.length())) {
+                Out::Val(Ok(l)) => ctx.violation("header-shorter-than-16-accepted", J::s(format!("declared length {} -> Ok (length() = {})", len, l))),
+                Out::Val(Err(e)) => ctx.count(&format!("short-length:Err({:?})", e)),
+                Out::Panic(_) => ctx.count("short-length:Panic"),
+            }
+            ctx.nontrivial(mix2(0x909, len as u64 * 8 + arch as u64));
+            return;
+        }
         let (mut bytes, tags) = gen::conformant_hdr(&mut ctx.rng, if cfg!(miri) { 5 } else { 10 });
         let labels = match ctx.rng.below(12) {
             0 => vec!["conformant".to_string()],
